@@ -102,7 +102,7 @@ def run(ctx, env):
     adta = json.dumps(strip_spans(prog.facts["adts"]), sort_keys=True)
     adtb = json.dumps(strip_spans(off.facts["adts"]), sort_keys=True)
     ctx.ob("R17.2", "crate", "types-identical", adta == adtb, "ADT definitions compared (%d)" % len(prog.facts["adts"]))
-    ctx.floor("R17.2", "crate", "bodies compared", nsame + ndiff, 480)
+    ctx.floor("R17.2", "crate", "bodies compared", nsame + ndiff, 400)
     # R17.3 (checked in both configurations)
     for cfgname, pr in (("default", prog), ("nofeat", off)):
         an = An(pr)
